@@ -176,7 +176,12 @@ impl<T: Copy> ReadStream<T> {
 
     #[must_use]
     pub fn wait_for_read(&self, need: usize) -> bool {
-        self.circ.wait_for_read(need) < need && Arc::strong_count(&self.circ) == 1
+        // Check for the writer being gone *before* looking at the buffer. The
+        // other order can see "not enough data", then have the writer commit
+        // its last samples and go away, then see "writer gone", and report
+        // that the data will never come although it is there.
+        let closed = Arc::strong_count(&self.circ) == 1;
+        self.circ.wait_for_read(need) < need && closed
     }
 
     /// Return true if there is nothing more ever to read from the stream.
@@ -249,7 +254,9 @@ impl<T: Copy> WriteStream<T> {
 
     #[must_use]
     pub fn wait_for_write(&self, need: usize) -> bool {
-        self.circ.wait_for_write(need) < need && Arc::strong_count(&self.circ) == 1
+        // Same order as in `ReadStream::wait_for_read`: peer first.
+        let closed = Arc::strong_count(&self.circ) == 1;
+        self.circ.wait_for_write(need) < need && closed
     }
 
     #[must_use]
@@ -287,6 +294,8 @@ impl<T> StreamWait for NCReadStream<T> {
     }
     fn wait(&self, need: usize) -> bool {
         let (lock, cv) = &*self.q;
+        // Peer first, then the queue. See `ReadStream::wait_for_read`.
+        let closed = Arc::strong_count(&self.q) == 1;
         let l = cv
             .wait_timeout_while(
                 lock.lock().unwrap(),
@@ -294,7 +303,7 @@ impl<T> StreamWait for NCReadStream<T> {
                 |s| s.len() < need,
             )
             .unwrap();
-        l.0.len() < need && Arc::strong_count(&self.q) == 1
+        l.0.len() < need && closed
     }
     fn closed(&self) -> bool {
         Arc::strong_count(&self.q) == 1
@@ -346,10 +355,13 @@ impl<T> NCReadStream<T> {
     /// Return true if there is nothing more ever to read from the stream.
     #[must_use]
     pub fn eof(&self) -> bool {
+        // Peer first, then the queue: a packet pushed right before the writer
+        // went away must not be declared unreachable.
+        let closed = Arc::strong_count(&self.q) == 1;
         if !self.q.0.lock().unwrap().is_empty() {
             false
         } else {
-            Arc::strong_count(&self.q) == 1
+            closed
         }
     }
 }
